@@ -64,7 +64,7 @@ func runCoreSuite(t *testing.T, cs coreSuite) {
 // C04 - window discipline, under faults and under a forging peer.
 func TestVerifC04(t *testing.T) {
 	runCoreSuite(t, coreSuite{
-		prop: "C04", mon: coreMon{windows: true}, nQuick: 500, nThor: 6000,
+		prop: "C04", mon: coreMon{windows: true, cc: true}, nQuick: 500, nThor: 6000,
 		profile: func(i int, rng *vrng) coreProfile {
 			p := defaultProfile()
 			switch i % 3 {
